@@ -106,8 +106,10 @@ func newHist(id int, mode string, r *gen.R, tr *gen.Trace) *Hist {
 	}
 	h.minStake = 15000000000
 	gt := time.Date(2024, 1, 1, 0, 0, 0, 0, time.UTC).Add(time.Duration(r.Intn(1000)) * time.Hour)
-	if r.Chance(1, 12) {
-		gt = time.Date(2100, 1, 1, 0, 0, 0, 0, time.UTC) // block time ahead of the wall clock: exercises the time.Now() test of unjail
+	if r.Chance(1, 12) || ((mode == "c25" || mode == "all") && id%5 == 4) {
+		// block time far ahead of the local clock (also the scripted jail / unjail-timing history): JailedUntil then lies
+		// after time.Now(), so an implementation that consults the wall clock refuses every unjail
+		gt = time.Date(2100, 1, 1, 0, 0, 0, 0, time.UTC)
 	}
 	o := chain.GenesisOpts{ChainID: chainID, GenesisTime: gt, Accounts: all, Owner: h.owner, MinStake: h.minStake,
 		Balance: 200000000000}
